@@ -99,6 +99,12 @@ class ThreadSafeLRUCache(LRUCache[_KT, _VT]):
         with self._lock:
             return super().__contains__(key)
 
+    def __len__(self) -> int:
+        # Without the lock we could see the cache between an eviction and the
+        # insertion that caused it.
+        with self._lock:
+            return super().__len__()
+
     @overload
     def get(self, key: _KT) -> Optional[_VT]: ...
     @overload
